@@ -140,6 +140,18 @@ pub fn eval(op: &str, t: &mut Toks) -> R<String> {
             };
             Ok(format!("{} wrap {}", concrete, concrete == via_enum))
         }
+        "C14.valid32" => {
+            // the same validation on single-precision coordinates (every coordinate of the case must be an f32)
+            use geo::algorithm::map_coords::MapCoords;
+            use geo::algorithm::coords_iter::CoordsIter;
+            let g = t.geom()?;
+            if !g.coords_iter().all(|c| (c.x as f32) as f64 == c.x && (c.y as f32) as f64 == c.y) {
+                return Ok("notf32".into());
+            }
+            let g32: Geometry<f32> = g.map_coords(|c| Coord { x: c.x as f32, y: c.y as f32 });
+            let via_enum = observe(&g32, &fmt_g);
+            Ok(format!("{} wrap true", via_enum))
+        }
         _ => Err(format!("unknown op {}", op)),
     }
 }
@@ -531,6 +543,15 @@ pub fn gen(rng: &mut Rng, _index: u64) -> String {
             ])),
         };
         return format!("C14.valid {}", proto::geom(&g));
+    }
+    if rng.chance(1, 30) {
+        // single precision at a scale where products of extents underflow in f32 (2^-80) but nothing else does:
+        // small-grid polygons (valid and mutated ones) scaled exactly
+        use geo::algorithm::map_coords::MapCoords;
+        let g = if rng.chance(1, 2) { Geometry::Polygon(gen_poly_case(rng, k)) } else { gen_valid(rng, k) };
+        let s = 2f64.powi(*rng.pick(&[-80, -80, -70, -100, 0, 60]));
+        let g = g.map_coords(|c| Coord { x: c.x * s, y: c.y * s });
+        return format!("C14.valid32 {}", proto::geom(&g));
     }
     if rng.chance(1, 30) {
         // needles: valid polygons with a very acute vertex at coordinates of 2^26 … 2^30 (twice the area is exactly 1
